@@ -214,6 +214,7 @@ type rt struct {
 	byPtr   map[uintptr]ent
 	logs    map[uintptr]bool
 	fired   []ent
+	onFire  func(k int) // called by the k-th logging stub of a run (re-entrant registration probe)
 	initial snap
 	// isolation: dbB opened independently, dbC opened with r.db's *Config value
 	others    []*otherDB
@@ -368,7 +369,12 @@ func newRT(cfg *pipeCfg, init int) (*rt, error) {
 	for i := range cfg.names {
 		for g := 0; g < maxGen; g++ {
 			e := ent{int8(i), int8(g)}
-			f := func(*gorm.DB) { r.fired = append(r.fired, e) } // capturing closure: one funcval per (name, gen)
+			f := func(*gorm.DB) { // capturing closure: one funcval per (name, gen)
+				r.fired = append(r.fired, e)
+				if r.onFire != nil {
+					r.onFire(len(r.fired) - 1)
+				}
+			}
 			r.stubs[i][g] = f
 			r.byPtr[fptr(f)] = e
 			r.logs[fptr(f)] = true
@@ -449,6 +455,30 @@ func (r *rt) run() (fired []ent, panicked string) {
 	r.fired = r.fired[:0]
 	r.a.execute()
 	return append([]ent{}, r.fired...), ""
+}
+
+// runReentrant executes the pipeline once more; when the k-th logging stub
+// fires, that stub issues a registration call on the SAME pipeline (prepend a
+// fresh callback Before("*"), or Remove the callback that is firing). The run
+// in progress was started on the list compiled before that call, so it must
+// fire exactly what a plain run fires. The pipeline is restored afterwards.
+func (r *rt) runReentrant(k int, remove bool) (fired []ent, panicked string) {
+	s := r.take()
+	defer func() {
+		r.onFire = nil
+		r.restore(s)
+	}()
+	r.onFire = func(i int) {
+		if i != k {
+			return
+		}
+		if remove {
+			r.a.remove(r.cfg.name(r.fired[i].Name))
+		} else {
+			r.a.register(0, "verif_reentrant", "*", "", true, false, func(*gorm.DB) {})
+		}
+	}
+	return r.run()
 }
 
 // stateKey: the registered callback list as gorm holds it after the call.
